@@ -216,6 +216,18 @@ func C20(c *Ctx) {
 			})
 		})
 		c.R.Check(memoOK, "C20-R3", r.name+": node emission memoised by node name", c.P.Pos(nodeFn.Pos()), "lookup and update of a set keyed by the name parameter itself", "node emission is not memoised on the node's own name (two spec nodes can share a declaration, or one node can be declared twice)")
+		// the "already declared" set is made empty by this rendering call
+		if memoOK {
+			origins := varOrigins(r.top, memoMap)
+			fresh := len(origins) > 0
+			whyFresh := "cannot find where the set of declared nodes is created"
+			for _, o := range origins {
+				if _, isMk := o.(*ssa.MakeMap); !isMk {
+					fresh, whyFresh = false, "the set of already declared nodes can come from "+o.String()+" ("+c.posv(o)+"), so it can outlive one rendering: a node declared in an earlier rendering is not declared again"
+				}
+			}
+			c.R.Check(fresh, "C20-R3", r.name+": the set of declared nodes starts empty for every rendering", c.posv(memoMap), "made by make() during this call", whyFresh)
+		}
 		// identifier written: first vararg after the format must be the name or the value stored under memo[name]
 		for i, cl := range nodeCalls {
 			id := varargAt(cl, 2, 0)
@@ -325,4 +337,53 @@ func C20(c *Ctx) {
 	if len(missing) > 0 {
 		c.R.Break("C20-R4: Analyze lacks accounting steps: %s", strings.Join(missing, ", "))
 	}
+}
+
+// varOrigins: leaf definitions of v, where v may be (a load of) a local variable
+// of top that is captured by its function literals: all values stored into that
+// variable anywhere in top and its literals, resolved through deepDefs.
+func varOrigins(top *ssa.Function, v ssa.Value) []ssa.Value {
+	fns := ssau.WithAnon(top)
+	w := &sliceWeb{fns: fns, parent: map[ssa.Value]ssa.Value{}}
+	scope := append(append([]*ssa.Function{}, fns...), pkgClosure(top)...)
+	seen := map[ssa.Value]bool{}
+	var out []ssa.Value
+	var rec func(v ssa.Value, depth int)
+	rec = func(v ssa.Value, depth int) {
+		if depth > 6 {
+			return
+		}
+		for _, d := range deepDefs(v, scope) {
+			if seen[d] {
+				continue
+			}
+			seen[d] = true
+			if ld, ok := d.(*ssa.UnOp); ok && ld.Op == token.MUL {
+				switch ld.X.(type) {
+				case *ssa.Alloc, *ssa.FreeVar:
+					root := w.cellRoot(ld.X)
+					n := 0
+					for _, f := range fns {
+						ssau.Instrs(f, func(in ssa.Instruction) {
+							if st, ok := in.(*ssa.Store); ok {
+								switch st.Addr.(type) {
+								case *ssa.Alloc, *ssa.FreeVar:
+									if w.cellRoot(st.Addr) == root {
+										n++
+										rec(st.Val, depth+1)
+									}
+								}
+							}
+						})
+					}
+					if n > 0 {
+						continue
+					}
+				}
+			}
+			out = append(out, d)
+		}
+	}
+	rec(v, 0)
+	return out
 }
